@@ -62,6 +62,19 @@ def _pf_file(job):
             info['bad'] = bad[:3]
             info['sample'] = r['obligations'][:1]
             funcs.append(info)
+        if mod == 'ctx_mp':
+            pair = PF.manager_pair_function(tree)
+            if pair is not None:
+                qual = 'ctx_mp.PrecisionManager.<with-protocol __enter__;body;__exit__>'
+                conf2 = dict(conf)
+                conf2['arbitrary_callees'] = dict(conf.get('arbitrary_callees', {}))
+                conf2['arbitrary_callees'][qual] = ('__arbitrary_body__',)
+                r = PF.analyze_function(qual, pair, conf2)
+                bad = [o for o in r['obligations'] if o['status'] != 'proved']
+                funcs.append({'qual': qual, 'line': pair.lineno, 'name': '__with_protocol__', 'nested': False,
+                              'method': 'PrecisionManager', 'decorators': [], 'class': 'analysed',
+                              'status': r['status'], 'reason': r.get('reason'), 'paths': r.get('paths'),
+                              'exits': len(r['obligations']), 'bad': bad[:3], 'sample': r['obligations'][:1]})
         out['funcs'] = funcs
     threading.stack_size(512 * 1024 * 1024)
     t = threading.Thread(target=work)
@@ -186,7 +199,7 @@ def run_precframe(prop, tier, seed, known, lock):
             rec['engine'] = 'precframe'
             path = write_replay(prop, unit, rec, 'precision not restored on the recorded path (static path; dynamic replay by fault injection: ./vcheck --replay)')
             _patch_replay(path, f)
-            dyn = replay_subprocess(os.path.join(HERE, path))
+            dyn = replay_subprocess(path if os.path.isabs(path) else os.path.join(HERE, path))
             out['violations'].append((key, rec, path, '' if dyn == 1 else ' no-failing-input-found'))
         else:
             out['undecided'].append((key, 'precframe %s (%s)' % (f['status'], f.get('reason'))))
@@ -199,7 +212,7 @@ def run_precframe(prop, tier, seed, known, lock):
 
 
 def _patch_replay(path, f):
-    p = os.path.join(HERE, path)
+    p = path if os.path.isabs(path) else os.path.join(HERE, path)
     with open(p) as fh:
         d = json.load(fh)
     d['engine'] = 'precframe'
@@ -240,6 +253,11 @@ def replay_precframe(d, quiet=False):
     fn = d.get('function', '')
     drv = D.DRIVERS.get(fn.split('.')[-1])
     if drv is None:
+        for k in D.DRIVERS:
+            if k in fn:
+                drv = D.DRIVERS[k]
+                break
+    if drv is None:
         if not quiet:
             print('no dynamic driver for %s; static path: %s' % (fn, d.get('bad_exits')))
         return 2
@@ -268,10 +286,13 @@ def replay_precframe(d, quiet=False):
                     pass
             after = mpmath.mp.prec
             mpmath.mp.prec = 53
+            if mpmath.iv.prec != 53:
+                after = ('iv', mpmath.iv.prec)
+                mpmath.iv.prec = 53
             if after != prec0:
                 bad += 1
                 if not quiet:
-                    print('precision %d -> %d after %s' % (prec0, after, getattr(scenario, '__doc__', scenario)))
+                    print('precision %s -> %s after %s' % (prec0, after, getattr(scenario, '__doc__', scenario)))
                     print('VIOLATION property=%s replay=%s' % (d.get('property'), d.get('obligation')))
                 return 1
     if bad:
